@@ -8,6 +8,7 @@ import (
 	"fmt"
 	"os"
 	"sort"
+	"strings"
 	"sync"
 	"time"
 
@@ -185,6 +186,7 @@ type storeEnv struct {
 	valueOptionalFrom uint64
 	optLo, optHi      uint64 // an additional range of such ids (from an earlier crash)
 	crashDepth        int    // number of crashes this store directory went through
+	optMod          func(*store.Options) // extra store options of this instance
 	lossyFirstCrash   bool   // an earlier crash of this history lost or tore un-synced writes
 	wideKeys          int    // > 0: number of extra keys to draw from
 	compactBias       bool   // maintenance favours index compaction
@@ -205,6 +207,9 @@ func (e *storeEnv) open() error {
 	var st *store.ImmuStore
 	var err error
 	opts := e.cfg.options()
+	if e.optMod != nil {
+		e.optMod(opts)
+	}
 	if os.Getenv("VERIF_REPLAY") != "" && os.Getenv("VERIF_STORE_LOG") != "" {
 		ml := logger.NewMemoryLoggerWithLevel(logger.LogDebug)
 		opts.WithLogger(ml)
@@ -592,13 +597,26 @@ func (e *storeEnv) verifyIndex(what string, n uint64) {
 			e.compareRef(what+": GetBetween", k, ref, vers[i], uint64(i+1))
 		}
 	}
-	// full scan, ascending and descending, live keys only
+	// full and prefix scans, ascending and descending, live keys only (one prefix is
+	// itself a key, another one a proper prefix of several keys)
+	type scanCase struct {
+		desc   bool
+		prefix string
+	}
+	var scans []scanCase
 	for _, desc := range []bool{false, true} {
+		scans = append(scans, scanCase{desc, ""})
+	}
+	for _, p := range []string{"ka", "ka/y", "k"} {
+		scans = append(scans, scanCase{e.r.Bool(), p})
+	}
+	for _, sc := range scans {
+		desc := sc.desc
 		snap, err := st.SnapshotMustIncludeTxID(ctx, nil, n)
 		if err != nil {
 			e.idxViol("index-snapshot", "%s: SnapshotMustIncludeTxID(%d) failed: %v", what, n, err)
 		}
-		rd, err := snap.NewKeyReader(store.KeyReaderSpec{DescOrder: desc, Filters: []store.FilterFn{store.IgnoreDeleted, store.IgnoreExpired}})
+		rd, err := snap.NewKeyReader(store.KeyReaderSpec{DescOrder: desc, Prefix: []byte(sc.prefix), Filters: []store.FilterFn{store.IgnoreDeleted, store.IgnoreExpired}})
 		if err != nil {
 			snap.Close()
 			e.idxViol("index-scan", "%s: NewKeyReader failed: %v", what, err)
@@ -632,13 +650,16 @@ func (e *storeEnv) verifyIndex(what string, n uint64) {
 			if last.Deleted || (last.Expires != 0 && !now.Before(time.Unix(last.Expires, 0))) {
 				continue
 			}
+			if !strings.HasPrefix(k, sc.prefix) {
+				continue
+			}
 			want = append(want, k)
 		}
 		if desc {
 			sort.Sort(sort.Reverse(sort.StringSlice(want)))
 		}
 		if fmt.Sprint(got) != fmt.Sprint(want) {
-			e.idxViol("index-scan", "%s: scan (desc=%v) returned keys %q, the live keys of the log are %q", what, desc, got, want)
+			e.idxViol("index-scan", "%s: scan (desc=%v, prefix %q) returned keys %q, the live keys of the log are %q", what, desc, sc.prefix, got, want)
 		}
 	}
 }
@@ -792,7 +813,7 @@ func (e *storeEnv) verifyProofs(what string, n uint64, states []uint64) {
 // ---------------------------------------------------------------------------
 // workload pieces
 
-var stKeys = []string{"k0", "k1", "k2", "k3", "k4", "k5", "ka/x", "ka/y", "ka/yy", "kb"}
+var stKeys = []string{"k0", "k1", "k2", "k3", "k4", "k5", "ka", "ka/x", "ka/y", "ka/yy", "kb"}
 
 // pickKey draws a key: from the small shared set, or (in runs that opted for a
 // wide key space, to grow multi-level index trees) from a few dozen keys.
